@@ -2,6 +2,7 @@
 from py.harness.common import *
 import torch.nn as nn
 from opacus.grad_sample.linear import compute_linear_norm_sample, compute_linear_grad_sample
+from opacus.grad_sample.embedding import compute_embedding_norm_sample, compute_embedding_grad_sample
 
 
 def case(c):
@@ -23,6 +24,17 @@ def case(c):
     return {'w2': w2, 'b2': b2, 'tw': tw, 'tb': tb}
 
 
+def emb_case(c):
+    """rows: a batch of id rows [n][L]; g: [n][L][D] integers.  Returns per row the squared ghost norm and the squared norm of the grad sample"""
+    emb = nn.Embedding(c['V'], c['D'], padding_idx=c['pad']).double()
+    ids = torch.tensor(c['ids'], dtype=torch.long)
+    g = torch.tensor(c['g'], dtype=torch.float64)
+    ns = compute_embedding_norm_sample(emb, [ids], g)[emb.weight]
+    gs = compute_embedding_grad_sample(emb, [ids], g)[emb.weight]
+    return {'n2': [int(round(float(x) ** 2)) for x in ns], 't2': [int(round(float((x ** 2).sum()))) for x in gs],
+            'resid': max(abs(float(x) ** 2 - round(float(x) ** 2)) for x in ns)}
+
+
 if __name__ == '__main__':
     p = read_payload()
-    emit({'results': [case(c) for c in p['cases']]})
+    emit({'results': [case(c) for c in p.get('cases', [])], 'emb': [emb_case(c) for c in p.get('emb', [])]})
